@@ -215,8 +215,22 @@ func runC19(c *Check) {
 	for _, pkgPath := range []string{rootPath + "/types", filePkg, rootPath + "/pkg/signer/noop"} {
 		found := false
 		for _, f := range funcsCalling(p, pkgPath, func(n string) bool { return n == "crypto/sha256.Sum256" }) {
-			// a function from a public key to bytes
-			if len(f.Params) == 1 && strings.HasSuffix(f.Params[0].Type().String(), "crypto.PubKey") {
+			// a function from a public key to bytes: a parameter, or (the derivation written out in
+			// the signer's method) the receiver's key field
+			isDeriv := len(f.Params) == 1 && strings.HasSuffix(f.Params[0].Type().String(), "crypto.PubKey")
+			if !isDeriv {
+				for _, b := range f.Blocks {
+					for _, in := range b.Instrs {
+						if call, ok := in.(*ssa.Call); ok && commonName(call.Common()) == "crypto/sha256.Sum256" {
+							at := TermOf(call.Common().Args[0], &Ctx{Fn: f})
+							if strings.Contains(at.String(), "core/crypto.") && strings.Contains(at.String(), ").Raw(") && strings.HasSuffix(at.String(), "#0") {
+								isDeriv = true
+							}
+						}
+					}
+				}
+			}
+			if isDeriv {
 				derivFns = append(derivFns, f)
 				found = true
 			}
@@ -236,13 +250,13 @@ func runC19(c *Check) {
 				switch x := in.(type) {
 				case *ssa.Call:
 					t := TermOf(x, &Ctx{Fn: fn})
-					if t.Op == "invoke" && strings.Contains(t.Name, "core/crypto.") && strings.HasSuffix(t.Name, ").Raw") && t.Args[0].Op == "param" {
+					if t.Op == "invoke" && strings.Contains(t.Name, "core/crypto.") && strings.HasSuffix(t.Name, ").Raw") && (t.Args[0].Op == "param" || t.Args[0].Op == "field") {
 						okRaw = true
 					}
 					if t.IsCall("crypto/sha256.Sum256") && strings.Contains(t.Args[0].String(), ").Raw(") && strings.HasSuffix(t.Args[0].String(), "#0") {
 						okSum = true
 					}
-					if t.Op == "call" && !t.IsCall("crypto/sha256.Sum256") {
+					if t.Op == "call" && !t.IsCall("crypto/sha256.Sum256") && !strings.HasPrefix(t.Name, "(*sync.") {
 						shape = append(shape, t.Name)
 					}
 				case *ssa.Slice:
